@@ -133,6 +133,24 @@ theorem C19_forwarded_v2 (mac : Str → Str → List UInt8) (R : Str) (lookup : 
   | legacyRemote hv _ _ _ _ _ _ => exact absurd hsp (hv u s more)
   | legacyLocal hv _ _ _ _ _ _ => exact absurd hsp (hv u s more)
 
+/-- A legacy-format token whose local lookup fails with anything but 401 — 403 for a token that is
+valid here but scoped, 5xx, an error without a status (500) — is never passed on: if such a token
+is anywhere in the list, the provider returns an error and nothing is sent. -/
+theorem C19_provider_refuses_on_lookup_error (mac : Str → Str → List UInt8) (R : Str)
+    (lookup : Str → Lookup) (ts : List Str) (t : Str) (st : Nat) (hmem : t ∈ ts)
+    (hv : ∀ u s more, splitSlash t ≠ sV2 :: u :: s :: more) (hob : isObsolete t = true)
+    (hlk : lookup t = .error st) (hst : st ≠ 401) :
+    ∀ out, provider mac R lookup (some ts) ≠ .ok out := by
+  intro out h
+  obtain ⟨o, _, hf⟩ := (provAll_ok mac R lookup ts out h).left t hmem
+  cases hf with
+  | salted u s more hsp _ _ => exact hv u s more hsp
+  | already u s more hsp _ _ => exact hv u s more hsp
+  | nonArvados _ hob' _ => rw [hob] at hob'; cases hob'
+  | legacyUnknown _ _ hlk' _ => rw [hlk] at hlk'; cases hlk'; exact hst rfl
+  | legacyRemote _ _ _ _ hlk' _ _ => rw [hlk] at hlk'; cases hlk'
+  | legacyLocal _ _ _ _ hlk' _ _ => rw [hlk] at hlk'; cases hlk'
+
 /-- Without credentials in the request context the provider fails; an error means no token (and
 no request) goes out. -/
 theorem C19_provider_no_credentials (mac : Str → Str → List UInt8) (R : Str) (lookup : Str → Lookup) :
@@ -295,7 +313,7 @@ example : saltToken mac20 "v2/zhome-gj3su-000000000000000/secret".toList "zrmte"
   simp [saltLen]
 
 -- C19_forwarded_secret: a provider run with one v2 token, one opaque token, one legacy token (401)
-example : provider mac20 "zrmte".toList (fun _ => .unauthorized)
+example : provider mac20 "zrmte".toList (fun _ => .error 401)
     (some ["v2/u/s".toList, "opaque".toList, "0123456789abcdefghijklmnopqrstuvwxyz01234".toList]) =
     .ok [saltedForm mac20 "u".toList "s".toList "zrmte".toList, "opaque".toList,
          "0123456789abcdefghijklmnopqrstuvwxyz01234".toList] := by
@@ -308,6 +326,11 @@ example : provider mac20 "zrmte".toList (fun _ => .unauthorized)
   have h2 : isObsolete "0123456789abcdefghijklmnopqrstuvwxyz01234".toList = true := by decide
   have h3 : "s".toList.length ≠ saltLen := by decide
   simp only [h1, h2, if_pos h3, if_true, Bool.false_eq_true, if_false]
+
+-- C19_provider_refuses_on_lookup_error: a legacy token, a 403 lookup
+example : (∀ u s more, splitSlash "0123456789abcdefghijklmnopqrstuvwxyz01234".toList ≠ sV2 :: u :: s :: more) ∧
+    isObsolete "0123456789abcdefghijklmnopqrstuvwxyz01234".toList = true ∧ (403 : Nat) ≠ 401 :=
+  ⟨by intro u s more h; simp [splitSlash] at h, by decide, by decide⟩
 
 -- C19_secret_not_in_salted: a 50-character secret that does not occur in the uuid
 example : '/' ∉ "3kg6k6lzmp9kj5cpkcoxie963cmvjahbt2fod9zru30k1jqdmi".toList ∧
